@@ -163,7 +163,7 @@ def rule_componentwise(fx, rep):
                             'double': {'c%s' % i: 2}, 'negate': {'c%s' % i: -1}}[op]
                     if x.t != want:
                         bad.append('coefficient c%s becomes %s, expected %s' % (i, x, LinV(want)))
-                if arity == 2 and outs.get(2) is not None and outs.get(2) != otherv and isinstance(outs.get(2), exp.Agg):
+                if arity == 2 and isinstance(outs.get(2), exp.Agg) and tower_leaves(outs.get(2)) != tower_leaves(otherv):
                     bad.append('the other operand is modified')
             rep.check(not bad, 'SHAPE', inst, 'component-wise: component i of the result is the %s of the i-th components (decided in the free module over the components)' % op,
                       '; '.join(bad[:3]), fx.fn(path)['span'], construct=path)
